@@ -66,8 +66,8 @@ func TestTqvWitness(t *testing.T) {
 		}
 	}
 	out := map[string]interface{}{
-		"obligation": "cmds/server/loader.Loader.reduceAuthenticatorAccounterFromGroups/bounded.first-group",
-		"scenario":   "exhaustive: 0..4 groups x authenticator/accounter present or absent per group x user-level entries",
+		"obligation":     "cmds/server/loader.Loader.reduceAuthenticatorAccounterFromGroups/bounded.first-group",
+		"scenario":       "exhaustive: 0..4 groups x authenticator/accounter present or absent per group x user-level entries",
 		"configurations": n, "mismatches": bad, "violated": len(bad) > 0 || n != 1364,
 	}
 	b, _ := json.Marshal(out)
